@@ -16,7 +16,50 @@ pub trait MObj {
     fn cl(&self) -> Box<dyn MObj> {
         panic!("clone unsupported")
     }
+    /// the type's own (inherent) reset / reset_with_key, where it has them (legacy BLAKE2 wrappers)
+    fn reset_inherent(&mut self) {
+        panic!("HARNESS: no inherent reset")
+    }
+    fn reset_key(&mut self, _k: &[u8]) {
+        panic!("HARNESS: no inherent reset_with_key")
+    }
 }
+
+macro_rules! legacy_b2_mac {
+    ($name:ident, $t:ty) => {
+        struct $name($t);
+        impl MObj for $name {
+            fn input(&mut self, d: &[u8]) {
+                Mac::input(&mut self.0, d)
+            }
+            fn result(&mut self) -> Vec<u8> {
+                Mac::result(&mut self.0).code().to_vec()
+            }
+            fn raw_result(&mut self, n: usize) -> Vec<u8> {
+                let mut o = dirty(n);
+                Mac::raw_result(&mut self.0, &mut o);
+                o
+            }
+            fn reset(&mut self) {
+                Mac::reset(&mut self.0)
+            }
+            fn output_bytes(&self) -> usize {
+                Mac::output_bytes(&self.0)
+            }
+            fn cl(&self) -> Box<dyn MObj> {
+                Box::new($name(self.0.clone()))
+            }
+            fn reset_inherent(&mut self) {
+                self.0.reset()
+            }
+            fn reset_key(&mut self, k: &[u8]) {
+                self.0.reset_with_key(k)
+            }
+        }
+    };
+}
+legacy_b2_mac!(LB2bMac, cryptoxide::blake2b::Blake2b);
+legacy_b2_mac!(LB2sMac, cryptoxide::blake2s::Blake2s);
 
 struct WMac<M: Mac>(M);
 impl<M: Mac> MObj for WMac<M> {
@@ -71,7 +114,52 @@ pub trait DigestObj {
     fn output_bytes(&self) -> usize;
     fn block_size(&self) -> usize;
     fn cl(&self) -> Box<dyn DigestObj>;
+    fn reset_inherent(&mut self) {
+        panic!("HARNESS: no inherent reset")
+    }
+    fn reset_key(&mut self, _k: &[u8]) {
+        panic!("HARNESS: no inherent reset_with_key")
+    }
 }
+
+macro_rules! legacy_b2_dig {
+    ($name:ident, $t:ty) => {
+        struct $name($t);
+        impl DigestObj for $name {
+            fn input(&mut self, d: &[u8]) {
+                Digest::input(&mut self.0, d)
+            }
+            fn result(&mut self, n: usize) -> Vec<u8> {
+                let mut o = dirty(n);
+                Digest::result(&mut self.0, &mut o);
+                o
+            }
+            fn reset(&mut self) {
+                Digest::reset(&mut self.0)
+            }
+            fn output_bits(&self) -> usize {
+                Digest::output_bits(&self.0)
+            }
+            fn output_bytes(&self) -> usize {
+                Digest::output_bytes(&self.0)
+            }
+            fn block_size(&self) -> usize {
+                Digest::block_size(&self.0)
+            }
+            fn cl(&self) -> Box<dyn DigestObj> {
+                Box::new($name(self.0.clone()))
+            }
+            fn reset_inherent(&mut self) {
+                self.0.reset()
+            }
+            fn reset_key(&mut self, k: &[u8]) {
+                self.0.reset_with_key(k)
+            }
+        }
+    };
+}
+legacy_b2_dig!(LB2bDig, cryptoxide::blake2b::Blake2b);
+legacy_b2_dig!(LB2sDig, cryptoxide::blake2s::Blake2s);
 struct WDig<D: Digest + Clone + 'static>(D);
 impl<D: Digest + Clone + 'static> DigestObj for WDig<D> {
     fn input(&mut self, d: &[u8]) {
@@ -127,6 +215,12 @@ macro_rules! digest_dispatch {
 }
 
 pub fn new_digest(name: &str) -> Box<dyn DigestObj> {
+    if let Some(n) = name.strip_prefix("blake2b:") {
+        return Box::new(LB2bDig(cryptoxide::blake2b::Blake2b::new(usz(n))));
+    }
+    if let Some(n) = name.strip_prefix("blake2s:") {
+        return Box::new(LB2sDig(cryptoxide::blake2s::Blake2s::new(usz(n))));
+    }
     macro_rules! go {
         ($e:expr) => {
             Box::new(WDig($e)) as Box<dyn DigestObj>
@@ -145,6 +239,15 @@ pub fn new_hmac(name: &str, key: &[u8]) -> Box<dyn MObj> {
 
 /// generic helpers used by the KDF ops: run `f` with an Hmac over the named digest
 pub fn pbkdf2_with(name: &str, pw: &[u8], salt: &[u8], c: u32, out: &mut [u8]) {
+    // any Mac can serve as PRF: keyed BLAKE2 with an arbitrary tag length
+    if let Some(n) = name.strip_prefix("b2bmac:") {
+        let mut m = cryptoxide::blake2b::Blake2b::new_keyed(usz(n), pw);
+        return cryptoxide::pbkdf2::pbkdf2(&mut m, salt, c, out);
+    }
+    if let Some(n) = name.strip_prefix("b2smac:") {
+        let mut m = cryptoxide::blake2s::Blake2s::new_keyed(usz(n), pw);
+        return cryptoxide::pbkdf2::pbkdf2(&mut m, salt, c, out);
+    }
     macro_rules! go {
         ($e:expr) => {{
             let mut m = Hmac::new($e, pw);
@@ -197,10 +300,10 @@ fn new_mac(ty: &str, key: &[u8]) -> Box<dyn MObj> {
         return new_hmac(d, key);
     }
     if let Some(n) = ty.strip_prefix("b2bmac:") {
-        return Box::new(WMacC(cryptoxide::blake2b::Blake2b::new_keyed(usz(n), key)));
+        return Box::new(LB2bMac(cryptoxide::blake2b::Blake2b::new_keyed(usz(n), key)));
     }
     if let Some(n) = ty.strip_prefix("b2smac:") {
-        return Box::new(WMacC(cryptoxide::blake2s::Blake2s::new_keyed(usz(n), key)));
+        return Box::new(LB2sMac(cryptoxide::blake2s::Blake2s::new_keyed(usz(n), key)));
     }
     panic!("unknown mac type {}", ty)
 }
@@ -235,10 +338,27 @@ fn mac_history(a: &[&str]) -> Vec<String> {
                 let n = usz(p[2]);
                 step(&mut out, || Some(hex(&objs[o].as_mut().unwrap().raw_result(n))))
             }
+            // rrc.O.N : raw_result into an N-byte buffer; a refusal (panic) is logged and the history CONTINUES on the same object
+            "rrc" => {
+                let n = usz(p[2]);
+                step(&mut out, || Some(hex(&objs[o].as_mut().unwrap().raw_result(n))));
+                true
+            }
             "x" => step(&mut out, || {
                 objs[o].as_mut().unwrap().reset();
                 None
             }),
+            "xi" => step(&mut out, || {
+                objs[o].as_mut().unwrap().reset_inherent();
+                None
+            }),
+            "xk" => {
+                let k = expand(p[2]);
+                step(&mut out, || {
+                    objs[o].as_mut().unwrap().reset_key(&k);
+                    None
+                })
+            }
             "ob" => step(&mut out, || Some(format!("{}", objs[o].as_ref().unwrap().output_bytes()))),
             "c" => {
                 let dst = usz(p[2]);
@@ -286,10 +406,27 @@ fn dig_history(a: &[&str]) -> Vec<String> {
                 let n = if p.len() > 2 { usz(p[2]) } else { ob.output_bytes() };
                 Some(hex(&ob.result(n)))
             }),
+            // rc.O.N : result into an N-byte buffer; a refusal (panic) is logged and the history CONTINUES on the same object
+            "rc" => {
+                let n = usz(p[2]);
+                step(&mut out, || Some(hex(&objs[o].as_mut().unwrap().result(n))));
+                true
+            }
             "x" => step(&mut out, || {
                 objs[o].as_mut().unwrap().reset();
                 None
             }),
+            "xi" => step(&mut out, || {
+                objs[o].as_mut().unwrap().reset_inherent();
+                None
+            }),
+            "xk" => {
+                let k = expand(p[2]);
+                step(&mut out, || {
+                    objs[o].as_mut().unwrap().reset_key(&k);
+                    None
+                })
+            }
             "ob" => step(&mut out, || Some(format!("{}", objs[o].as_ref().unwrap().output_bytes()))),
             "obits" => step(&mut out, || Some(format!("{}", objs[o].as_ref().unwrap().output_bits()))),
             "bs" => step(&mut out, || Some(format!("{}", objs[o].as_ref().unwrap().block_size()))),
